@@ -290,6 +290,140 @@ func ruleW8(c *Ctx) {
 	c.check(n >= 19, "W8", "table-rows", token.NoPos, fmt.Sprintf("%d header-table obligations shared from C16-H1 (frozen minimum 19)", n))
 }
 
+// W9: the method fits its digit. MsgSig.String renders the method as one hexadecimal character and flags anything
+// that does not fit ('E' plus a wrong digit, one character too many); the bound it tests (found on SSA: the constant
+// the converted Method field is compared with) must exceed every declared constant of the method type, so adding a
+// method in front of MOther cannot push a reported method out of the encoding.
+func ruleW9(c *Ctx) {
+	fn := c.SFuncs["MsgSig.String"]
+	if fn == nil {
+		c.fail("W9", "MsgSig.String", token.NoPos, "not found")
+		return
+	}
+	var bound int64 = -1
+	var nt *types.Named
+	var pos token.Pos
+	for _, b := range fn.Blocks {
+		for _, ins := range b.Instrs {
+			bo, ok := ins.(*ssa.BinOp)
+			if !ok || (bo.Op != token.GEQ && bo.Op != token.GTR && bo.Op != token.LSS && bo.Op != token.LEQ) {
+				continue
+			}
+			k, isK := constIntOf(bo.Y)
+			if !isK {
+				continue
+			}
+			v := bo.X
+			for i := 0; i < 3; i++ {
+				if cv, ok := v.(*ssa.Convert); ok {
+					v = cv.X
+				}
+			}
+			var ft types.Type
+			switch x := v.(type) {
+			case *ssa.Field:
+				if st, ok := x.X.Type().Underlying().(*types.Struct); ok && st.Field(x.Field).Name() == "Method" {
+					ft = st.Field(x.Field).Type()
+				}
+			case *ssa.UnOp:
+				if fa, ok := x.X.(*ssa.FieldAddr); ok && x.Op == token.MUL {
+					if st := derefStruct(fa.X.Type()); st != nil && st.Field(fa.Field).Name() == "Method" {
+						ft = st.Field(fa.Field).Type()
+					}
+				}
+			}
+			if n, ok := ft.(*types.Named); ok {
+				nt = n
+				bound = k
+				if bo.Op == token.GTR || bo.Op == token.LEQ {
+					bound = k + 1
+				}
+				pos = bo.Pos()
+			}
+		}
+	}
+	if nt == nil {
+		c.fail("W9", "method-range-test", fn.Pos(), "MsgSig.String does not compare the Method field with a constant bound")
+		return
+	}
+	max, cnt := enumMax(c, nt)
+	c.check(cnt >= 10 && max < bound && bound <= 16, "W9", "method-fits-one-digit", pos, fmt.Sprintf("every one of the %d declared %s constants (max %d) is below the bound %d that MsgSig.String renders as one hexadecimal digit", cnt, nt.Obj().Name(), max, bound))
+}
+
+// W10: the branch comes from the first Via value. GetViaBrSig walks the parameters one by one with the comma as
+// terminator; every offset it hands to ParseTokenParam is the position after the first ';' (bytes.IndexByte of that
+// byte) or the continuation offset of the previous ParseTokenParam call, so the walk cannot jump over the comma into a
+// later Via value (a substring search for ";branch=" would).
+func ruleW10(c *Ctx) {
+	fn := c.SFuncs["GetViaBrSig"]
+	if fn == nil {
+		c.fail("W10", "GetViaBrSig", token.NoPos, "not found")
+		return
+	}
+	inProg := map[ssa.Value]bool{}
+	var allowed func(v ssa.Value, depth int) bool
+	allowed = func(v ssa.Value, depth int) bool {
+		if depth > 40 {
+			return false
+		}
+		if inProg[v] {
+			return true
+		}
+		if _, isPhi := v.(*ssa.Phi); isPhi {
+			inProg[v] = true
+			defer delete(inProg, v)
+		}
+		switch x := v.(type) {
+		case *ssa.Const:
+			return true
+		case *ssa.Phi:
+			for _, e := range x.Edges {
+				if e != ssa.Value(x) && !allowed(e, depth+1) {
+					return false
+				}
+			}
+			return true
+		case *ssa.BinOp:
+			return (x.Op == token.ADD || x.Op == token.SUB) && allowed(x.X, depth+1) && allowed(x.Y, depth+1)
+		case *ssa.Extract:
+			call, ok := x.Tuple.(*ssa.Call)
+			if !ok {
+				return false
+			}
+			cal := call.Call.StaticCallee()
+			return cal != nil && cal.Name() == "ParseTokenParam" && x.Index == 0
+		case *ssa.Call:
+			cal := x.Call.StaticCallee()
+			if cal != nil && cal.Pkg != nil && cal.Pkg.Pkg.Path() == "bytes" && cal.Name() == "IndexByte" && len(x.Call.Args) == 2 {
+				if k, ok := constIntOf(x.Call.Args[1]); ok && k == ';' {
+					_, isParam := x.Call.Args[0].(*ssa.Parameter)
+					return isParam
+				}
+			}
+			return false
+		}
+		return false
+	}
+	n := 0
+	for _, b := range fn.Blocks {
+		for _, ins := range b.Instrs {
+			call, ok := ins.(*ssa.Call)
+			if !ok {
+				continue
+			}
+			cal := call.Call.StaticCallee()
+			if cal == nil || cal.Name() != "ParseTokenParam" || len(call.Call.Args) < 2 {
+				continue
+			}
+			n++
+			c.check(allowed(call.Call.Args[1], 0), "W10", "walk-offset#"+itoa(n), call.Pos(), "the offset handed to ParseTokenParam is the position after the first ';' of the Via value or the continuation offset of the previous parameter")
+			_, isParam := call.Call.Args[0].(*ssa.Parameter)
+			c.check(isParam, "W10", "walk-buffer#"+itoa(n), call.Pos(), "the parameters are parsed in the Via value itself (the function's parameter), not in a re-sliced window")
+		}
+	}
+	c.check(n >= 1, "W10", "instances", fn.Pos(), fmt.Sprintf("%d parameter-walk call(s)", n))
+}
+
 func init() {
 	register(&PropDef{
 		ID: "C19",
@@ -300,6 +434,8 @@ func init() {
 			{"W5", "text rendering: every table index in MsgSig.String is discharged by the index-guard rules (masked with 0xf, or the named HdrSig exception)", ruleW5},
 			{"W8", "insertion / removal of other headers: the signature reads Hdr.Type, and the name->type table is exactly the documented 19 pairs (shared with C16-H1), so no other header name is classified as a fingerprinted type", ruleW8},
 			{"W7", "array-size independence at the source: ParseHeaders stores a header in the caller's array exactly when N < len(Hdrs) (C13-K4), so a message whose header count equals the capacity is fingerprinted from all of its headers", ruleW7},
+			{"W9", "the method fits its digit: the bound MsgSig.String tests before rendering the method as one hexadecimal character (read from the comparison on SSA) exceeds every declared constant of the method type, so no reported method renders as the error marker plus a wrong digit", ruleW9},
+			{"W10", "the branch part comes from the first Via value: every offset GetViaBrSig hands to ParseTokenParam is the position after the first ';' (bytes.IndexByte of that byte on the parameter) or the previous call's continuation offset, and the buffer is the Via value itself — the walk is stopped by the comma terminator and never jumps into a later Via value", ruleW10},
 			{"W6", "Via branch extraction: flag set, branch name test, magic prefix; its index/slice expressions are guarded", ruleW6},
 		},
 		Assumptions: []string{"MsgSig.HdrSigLen is only produced by GetMsgSig"},
